@@ -1,9 +1,16 @@
 package pnum
 
 import (
+	"fmt"
+	"math/big"
+	"strings"
+	"sync"
 	"sync/atomic"
 
+	ledger "github.com/formancehq/ledger/internal"
+	"github.com/formancehq/ledger/internal/machine"
 	"github.com/formancehq/ledger/internal/machine/script/compiler"
+	"github.com/formancehq/ledger/internal/machine/vm"
 	"github.com/formancehq/ledger/internal/machine/vm/program"
 	"github.com/formancehq/ledger/verifh/ev"
 	"github.com/formancehq/ledger/verifh/gen"
@@ -39,6 +46,11 @@ func (s *spaceStats) fill(cov ev.Coverage) {
 }
 
 type machineVisitor struct {
+	// Guard, when set, makes every run go through Guard.run: the process-global state the
+	// machine shares between runs is checked after EVERY run, a run that saw it damaged is
+	// redone alone from restored globals, and res.GlobalsMutated names what the run itself
+	// damaged. Nil: plain runMachine, globals neither checked nor restored.
+	Guard *globalGuard
 	Begin func(pc *progCtx)
 	Each  func(pc *progCtx, env *gen.Env, res *machineRun)
 	End   func(pc *progCtx)
@@ -61,8 +73,14 @@ func exploreMachineSpace(r *ev.Run, sp spaceDesc, v machineVisitor) (*spaceStats
 		}
 		forEachEnv(p, func(env *gen.Env) {
 			st.Evals.Add(1)
-			fs := newFakeStore(env)
-			res := runMachine(prog, env.Vars, vmStore{fs})
+			var fs *fakeStore
+			var res machineRun
+			if v.Guard != nil {
+				res, fs = v.Guard.run(prog, env.Vars, func() *fakeStore { return newFakeStore(env) })
+			} else {
+				fs = newFakeStore(env)
+				res = runMachine(prog, env.Vars, vmStore{fs})
+			}
 			res.Queried = fs.queried
 			switch {
 			case res.Panic != nil:
@@ -91,4 +109,134 @@ func coveredStages(stages []stageStat) []string {
 		}
 	}
 	return out
+}
+
+// ---------------------------------------------------------------------------
+// state that outlives a run
+// ---------------------------------------------------------------------------
+//
+// A machine run is supposed to be a function of (program, vars, store). Two things
+// outlive it inside the process and are shared with every later run, of any script,
+// on any ledger:
+//   - the package-level values the machine packages export and compute with:
+//     machine.Zero (*MonetaryInt: the "0" of Funding.Take/TakeMax/Total, withdrawAll,
+//     OP_TAKE_MAX, Allotment.Allocate; OP_SAVE installs it as a tracked balance) and
+//     ledger.Zero (*big.Int: the sign test of ResolveBalances);
+//   - the compiled program (the ledger keeps it in its parser cache): its constant
+//     resources are handed to the machine by pointer.
+// Both are pointers to mutable big integers, so an in-place operation on a value that
+// aliases them changes the arithmetic of every later run. The invariant "still 0" /
+// "still the compiled constants" costs two sign tests (one short string) per run.
+
+// globalDamage names one package-level value that no longer has its initial value.
+type globalDamage struct {
+	Name string // "machine.Zero", "ledger.Zero"
+	What string // its value now
+}
+
+// globalStateIntact is the per-run test. It only looks at sign words, so it is safe
+// (no dereference of a half-written slice) even while a defective run on another
+// worker is writing the value.
+func globalStateIntact() bool {
+	mz, lz := machine.Zero, ledger.Zero
+	return mz != nil && lz != nil && mz.ToBigInt().Sign() == 0 && lz.Sign() == 0
+}
+
+// globalStateDamage describes the damage; only called when no run is in flight.
+func globalStateDamage() []globalDamage {
+	var out []globalDamage
+	if mz := machine.Zero; mz == nil {
+		out = append(out, globalDamage{"machine.Zero", "nil"})
+	} else if mz.ToBigInt().Sign() != 0 {
+		out = append(out, globalDamage{"machine.Zero", mz.String()})
+	}
+	if lz := ledger.Zero; lz == nil {
+		out = append(out, globalDamage{"ledger.Zero", "nil"})
+	} else if lz.Sign() != 0 {
+		out = append(out, globalDamage{"ledger.Zero", lz.String()})
+	}
+	return out
+}
+
+func restoreGlobalState() {
+	machine.Zero = machine.NewMonetaryInt(0)
+	ledger.Zero = big.NewInt(0)
+}
+
+// globalGuard keeps the runs of the parallel workers independent of each other even
+// when one of them damages the process-global state, and attributes the damage to
+// the run that did it:
+//   - every run holds the read lock; its postings are copied (a posting amount may BE
+//     the global: a zero part taken from an empty source is machine.Zero itself) and
+//     the invariant is tested before the lock is released;
+//   - a run that finds the state damaged (by itself or by a run of another worker that
+//     overlapped it) is discarded and redone under the write lock, i.e. alone, from
+//     restored globals: if the state is damaged again, this very run did it
+//     (GlobalsMutated), and the state is restored once more before anybody else runs.
+//
+// A restoration needs the write lock, so no run ever spans one: a run either ended
+// before the damage (its copied result is clean) or sees it at its end. The damaging
+// run itself always reaches its own test with the damage in place, so it is always
+// found, whatever the interleaving.
+type globalGuard struct {
+	mu     sync.RWMutex
+	Checks atomic.Int64 // invariant evaluations (one per run)
+	Redone atomic.Int64 // runs redone alone because the state was found damaged
+}
+
+func detachPostings(res *machineRun) (ok bool) {
+	defer func() {
+		if recover() != nil { // a value being rewritten by another worker: state is damaged
+			ok = false
+		}
+	}()
+	if len(res.Postings) == 0 {
+		return true
+	}
+	cp := make([]vm.Posting, len(res.Postings))
+	for i, p := range res.Postings {
+		cp[i] = p
+		if p.Amount != nil {
+			cp[i].Amount = machine.NewMonetaryIntFromBigInt(new(big.Int).Set(p.Amount.ToBigInt()))
+		}
+	}
+	res.Postings = cp
+	return true
+}
+
+func (g *globalGuard) run(prog *program.Program, vars map[string]string, mk func() *fakeStore) (machineRun, *fakeStore) {
+	g.mu.RLock()
+	fs := mk()
+	res := runMachine(prog, vars, vmStore{fs})
+	ok := detachPostings(&res)
+	ok = globalStateIntact() && ok
+	g.Checks.Add(1)
+	g.mu.RUnlock()
+	if ok {
+		return res, fs
+	}
+	g.mu.Lock()
+	defer g.mu.Unlock()
+	g.Redone.Add(1)
+	restoreGlobalState() // (another worker may have done it already: harmless)
+	fs = mk()
+	res = runMachine(prog, vars, vmStore{fs})
+	detachPostings(&res)
+	g.Checks.Add(1)
+	if !globalStateIntact() {
+		res.GlobalsMutated = globalStateDamage()
+		restoreGlobalState()
+	}
+	return res, fs
+}
+
+// programFingerprint renders what a run may not change in the compiled program: the
+// instructions and the resources (constants carry *MonetaryInt amounts).
+func programFingerprint(p *program.Program) string {
+	var b strings.Builder
+	fmt.Fprintf(&b, "%x", p.Instructions)
+	for _, r := range p.Resources {
+		fmt.Fprintf(&b, "|%v", r)
+	}
+	return b.String()
 }
